@@ -174,6 +174,11 @@ def lp_models(tier="quick"):
         for sense in ("min", "max"):
             out.append(dict(tag=f"obj:{tag}:{sense}", obj=f, sense=sense,
                             cons=[("le", ("bin", "+", X, Z), ("num", S("r0"))), ("ge", X, ("num", 0.0))], bounds=std_bounds))
+        # the objective alone / with constraints on the same vector only: the problem's variables are
+        # exactly the form's variables, so the whole-vector shortcuts of the extractor are HIT
+        out.append(dict(tag=f"objonly:{tag}:min", obj=f, sense="min", cons=[], bounds=std_bounds))
+        out.append(dict(tag=f"objonly:{tag}:max", obj=f, sense="max", cons=[], bounds=std_bounds))
+        out.append(dict(tag=f"objv:{tag}:min", obj=f, sense="min", cons=[("ge", ("vsum", V3), ("num", S("r0"))), ("le", ("velem", V3, 0), ("num", S("r1")))], bounds=std_bounds))
         kinds = ("le", "ge", "eq", "rle", "rge")
         for kind in kinds:
             for base_obj in ((simple_obj, "s"), (vobj, "v")):
@@ -248,3 +253,5 @@ def solve_models(tier="quick"):
 
 METHODS = ["auto", "linprog", "highs", "highs-ds", "highs-ipm", "SLSQP", "trust-constr", "L-BFGS-B"]
 LP_METHODS = {"linprog", "highs", "highs-ds", "highs-ipm"}
+# methods that do not take bounds (BFGS) / take bounds but no derivatives (Nelder-Mead): the '...' of the property texts
+EXTRA_METHODS = ["BFGS", "Nelder-Mead"]
